@@ -8,27 +8,12 @@ constructed (evaluated) AT MOST ONCE, and once cached every later get is a cache
 Not provable here: data-race freedom in the Go memory-model sense, the runtime library's actual
 lock implementation, the scheduler — those are only searched for with `-race` runs.
 -/
+import GontainerModel.Lemmas.C20Aux
 import GontainerModel.Model.RuntimeConc
 import GontainerModel.Generated.Template
 import GontainerModel.Generated.Stub
 namespace GM.C20
 open GM GM.RuntimeConc
-
-theorem inv_init : CInv {} := by simp [CInv, pending, inFlight]
-
-theorem inv_step (s s' : S) (h : CInv s) (st : Step s s') : CInv s' := by
-  obtain ⟨h1, h2⟩ := h
-  cases st with
-  | acquire t hc => simp_all [CInv, pending, inFlight]
-  | hit t hc hcache => simp_all [CInv, pending, inFlight]
-  | miss t hc hcache => simp_all [CInv, pending, inFlight]
-  | construct t ok hc =>
-    have hcache : s.cache = false := h2 (by simp [inFlight, hc])
-    cases ok <;> simp_all [CInv, pending, inFlight]
-  | publish t hc =>
-    have hcache : s.cache = false := h2 (by simp [inFlight, hc])
-    simp_all [CInv, pending, inFlight]
-  | fail t hc => simp_all [CInv, pending, inFlight]
 
 /-- the invariant holds in every reachable state: any number of threads, any interleaving, any length -/
 theorem reachable_inv (s : S) (h : Reachable s) : CInv s := by
